@@ -4,7 +4,7 @@ from hypothesis import strategies as st
 
 from .. import gen
 from ..core import SubCheck, Violation
-from ..oracle import (LAZY_CHOICES, lib, lib_uninitialised, np_rows, np_flat, lazy_ra, mk_rows, expect_ragged, expect_refused, expect_unchanged, expect_array,
+from ..oracle import (LAYOUTS, layout, LAZY_CHOICES, lib, lib_uninitialised, np_rows, np_flat, lazy_ra, mk_rows, expect_ragged, expect_refused, expect_unchanged, expect_array,
                       jsonable, arrays_equal)
 
 RULE = ("Cases per function: concatenate along rows (1-4 operands, zero-row operands included) and along columns (equal row "
@@ -303,7 +303,8 @@ def body_rslice(case, ctx):
         obj = arr
         dt = src[1]
     else:
-        arr = np.array(src[3], dtype=src[1]).reshape(src[2][0], src[2][1])
+        arr = layout(np.array(src[3], dtype=src[1]).reshape(src[2][0], src[2][1]), case.get("layout", "C"))
+        ctx.label("layout:" + case.get("layout", "C"))
         base = list(arr)
         obj = arr
         dt = src[1]
@@ -348,7 +349,7 @@ def rslice_case(draw, tier):
     if kind == "1d":
         use_s = True   # with a 1-D input the windows are defined by the start vector; omitting it is not claimed
     return {"src": src, "starts": [w[0] for w in ws], "ends": [w[1] for w in ws], "use_starts": use_s, "use_ends": use_e,
-            "via": via, "lz": draw(LZ), "bounds_as": draw(st.sampled_from(["int64", "int64", "int32", "intp"]))}   # Python lists are not claimed (the library adds them to array offsets)
+            "via": via, "lz": draw(LZ), "layout": draw(st.sampled_from(LAYOUTS)), "bounds_as": draw(st.sampled_from(["int64", "int64", "int32", "intp"]))}   # Python lists are not claimed (the library adds them to array offsets)
 
 
 def body_fn_sequence(case, ctx):
